@@ -234,6 +234,47 @@ def s_password(vc):
         vc.ensure("hash.true_iff_verifier_accepts", Iff(out.result, hasher.accepts))
 
 
+def _memoised(vc, ref):
+    """the function is wrapped by a result cache (functools.lru_cache / cache).  The engine treats such decorators as
+    transparent, which is only sound for functions of their arguments alone — is_valid_password also reads self._password"""
+    if vc.mode == "native":
+        from pyvc.vc import resolve_ref
+        return hasattr(resolve_ref(ref)[2], "cache_info")
+    return any(d.split(".")[-1] in ("lru_cache", "cache", "cached_property") for d in vc._ifunc(ref).decorators)
+
+
+@scenario("WebAuth.is_valid_password.after_reconfigure", functions=[WA + ".is_valid_password", WA + ".configure"])
+def s_password_history(vc):
+    """History: a password is presented, the option web_password is changed at run time, a password is presented again.
+    The second answer must be about the CURRENT password only."""
+    old, new = vc.sym_str("old_password"), vc.sym_str("new_password")
+    first, second = vc.sym_str("first_given"), vc.sym_str("second_given")
+    for s in (old, new):
+        vc.assume(len_(s) > 0)
+        vc.assume(Not(startswith(s, "$")))
+    hasher = vc.new(M + "HasherModel", accepts=False, calls=vc.list([]))
+    wa = vc.new(WA, _password=old, _hasher=hasher)
+    import mitmproxy.ctx as mctx
+    mctx.options = mk_options(vc, web_password=new, web_port=8081)
+    vc.ensure("answers_depend_on_mutable_state.not_memoised", not _memoised(vc, WA + ".is_valid_password"))
+    o1 = vc.call(WA + ".is_valid_password", wa, first)
+    vc.ensure("first.no_exception", o1.ok)
+    if not o1.ok:
+        return
+    vc.ensure("first.true_iff_old_password", Iff(o1.result, first == old))
+    oc = vc.call(WA + ".configure", wa, {"web_password"} if vc.mode == "native" else vc.lift({"web_password"}))
+    vc.ensure("configure.no_exception", oc.ok)
+    if not oc.ok:
+        return
+    vc.ensure("configure.password_replaced", wa._password == new)
+    o2 = vc.call(WA + ".is_valid_password", wa, second)
+    vc.ensure("second.no_exception", o2.ok)
+    if not o2.ok:
+        return
+    vc.ensure("second.true_iff_new_password", Iff(o2.result, second == new))
+    vc.ensure("second.old_password_no_longer_accepted", Implies(And(second == old, old != new), Not(o2.result)))
+
+
 def _ascii(vc, s):
     if vc.mode == "native":
         return s.isascii()
@@ -297,7 +338,7 @@ def bounded(tier, seed):
               "malformed (Bearer without parameter, Basic scheme, non-ASCII token, forged cookie), valid token (query / Bearer), valid signed cookie} x Sec-Fetch-Site "
               "{absent, same-origin, none, same-site, cross-site} x XSRF token {absent, wrong, valid}; checked: unauthenticated => 403 (405 where the route does not implement "
               "the method), no flow/option data in the answer, view / options / events / replay queue unchanged; authenticated state-changing request without valid XSRF token or "
-              "marked cross-site => refused and state unchanged; the WebSocket endpoint /updates likewise; every handler class carries the auth wrapper on every implemented "
+              "marked cross-site => refused and state unchanged; the WebSocket endpoint /updates likewise; a run-time history of four web_password values (plaintext and argon2 hash), every password of the history presented after every change via query and Bearer: only the current one is accepted; every handler class carries the auth wrapper on every implemented "
               "method; distinct = (route, method, credential, Sec-Fetch-Site, xsrf); non-trivial = state-changing method or data-bearing route")
     b.bound = f"{len(routes)} routes x {len(METHODS)} methods; quick: reduced Sec-Fetch-Site/XSRF cross product for the non-cookie credentials"
     b.exhaustive = True
@@ -419,6 +460,30 @@ def bounded(tier, seed):
                     b.fail("websocket.no_state_change", inp, "connection registered / state changed")
             if conn is not None:
                 conn.close()
+        # ---- history: the password is changed at run time (option web_password); only the CURRENT password opens the door
+        import argon2
+        _reset(w)
+        stages = [("first-pw", "first-pw"), ("second-pw", "second-pw"), ("third-pw", argon2.PasswordHasher(time_cost=1, memory_cost=8, parallelism=1).hash("third-pw")), ("fourth-pw", "fourth-pw")]
+        all_pw = [p for p, _ in stages] + ["never-valid"]
+        for i, (plain, configured) in enumerate(stages):
+            w.master.options.update(web_password=configured)
+            for how in ("query", "bearer"):
+                # present every password of the history (earlier ones were accepted before, later ones were refused before)
+                for cand in all_pw:
+                    headers = {"Authorization": "Bearer " + cand} if how == "bearer" else {}
+                    q = "?token=" + cand if how == "query" else ""
+                    before = _snapshot(w)[:3]
+                    r = w.request("GET", "/flows" + q, headers=headers, auth=False)
+                    b.case(("password-history", i, how, cand))
+                    inp = {"history": [p for p, _ in stages[: i + 1]], "presented": cand, "via": how}
+                    if cand == plain:
+                        if r.code != 200:
+                            b.fail("history.current_password_accepted", inp, f"status {r.code}")
+                    else:
+                        if r.code != 403 or any(x in (r.body or b"") for x in SECRETS) or any("mitmproxy-auth" in c for c in r.headers.get_list("Set-Cookie")):
+                            b.fail("history.only_current_password_accepted", inp, f"status {r.code}, body {(r.body or b'')[:80]!r}")
+                        if _snapshot(w)[:3] != before:   # (events excluded: the plaintext-password warning is logged asynchronously)
+                            b.fail("history.only_current_password_accepted", inp, "state changed")
     finally:
         clientplayback.ClientPlayback.start_replay = orig_start_replay
         w.stop()
